@@ -270,11 +270,41 @@ Proof.
     cbn [map]. rewrite Hc, IHcs. reflexivity.
 Qed.
 
+(* the reader-side unfolding of [gen_random_attribute] on a given domain: the emptiness check first *)
+Definition dom_empty (d : domain) : bool :=
+  match dom_elems d, dom_ranges d with [], [] => true | _, _ => false end.
+
+Lemma gen_random_attribute_some nm d ol draws m :
+  gen_random_attribute nm (Some d) ol draws m =
+  if dom_empty d then Err FlamaException else
+  match decide (get_features m) ol nm d draws with
+  | Err e => Err e
+  | Ok (vs, _) => Ok {| root := apply_values nm d (get_features m) vs (root m); ctcs := ctcs m |}
+  end.
+Proof. reflexivity. Qed.
+
+Lemma dom_empty_false d : dom_empty d = false -> dom_elems d <> [] \/ dom_ranges d <> [].
+Proof.
+  unfold dom_empty. intros H.
+  destruct (dom_elems d) as [|e es]; [|left; discriminate].
+  destruct (dom_ranges d) as [|r rs]; [discriminate|right; discriminate].
+Qed.
+
+(* an accepted call had something to draw from *)
+Theorem gen_random_domain_nonempty : forall nm d ol draws m m',
+  gen_random_attribute nm (Some d) ol draws m = Ok m' ->
+  dom_elems d <> [] \/ dom_ranges d <> [].
+Proof.
+  intros nm d ol draws m m' H. rewrite gen_random_attribute_some in H.
+  destruct (dom_empty d) eqn:Hde; [discriminate|]. apply dom_empty_false. exact Hde.
+Qed.
+
 Theorem gen_frame : forall nm d ol draws m m',
   gen_random_attribute nm (Some d) ol draws m = Ok m' ->
   ctcs m' = ctcs m /\ strip_attrs (root m') = strip_attrs (root m).
 Proof.
-  intros nm d ol draws m m' H. unfold gen_random_attribute in H.
+  intros nm d ol draws m m' H. rewrite gen_random_attribute_some in H.
+  destruct (dom_empty d) eqn:Hde; [discriminate|].
   destruct (decide (get_features m) ol nm d draws) as [[vs rest]|e]; [|discriminate].
   inversion H; subst. cbn [ctcs root]. split; [reflexivity|]. apply apply_values_strip.
 Qed.
@@ -470,7 +500,8 @@ Theorem gen_attrs : forall nm d ol draws m m' f,
                = Some (f_attrs (info f) ++ [{| a_name := nm; a_dom := Some d; a_default := v; a_null := VNone |}]))
   /\ (targeted ol nm f = false -> attrs_of (name f) (root m') = Some (f_attrs (info f))).
 Proof.
-  intros nm d ol draws m m' f Hnd H Hin. unfold gen_random_attribute in H.
+  intros nm d ol draws m m' f Hnd H Hin. rewrite gen_random_attribute_some in H.
+  destruct (dom_empty d) eqn:Hde; [discriminate|].
   destruct (decide (get_features m) ol nm d draws) as [[vs rest]|e] eqn:Hd; [|discriminate].
   inversion H; subst. cbn [root].
   rewrite (attrs_of_apply nm d (get_features m) vs (root m) f Hnd Hin), attrs_apply.
@@ -494,7 +525,8 @@ Theorem gen_attrs_in_domain : forall nm d ol draws m m' f,
     attrs_of (name f) (root m')
     = Some (f_attrs (info f) ++ [{| a_name := nm; a_dom := Some d; a_default := gval_aval g; a_null := VNone |}]).
 Proof.
-  intros nm d ol draws m m' f Hord Hri Hnd H Hin Ht. unfold gen_random_attribute in H.
+  intros nm d ol draws m m' f Hord Hri Hnd H Hin Ht. rewrite gen_random_attribute_some in H.
+  destruct (dom_empty d) eqn:Hde; [discriminate|].
   destruct (decide (get_features m) ol nm d draws) as [[vs rest]|e] eqn:Hd; [|discriminate].
   inversion H; subst. cbn [root].
   rewrite (attrs_of_apply nm d (get_features m) vs (root m) f Hnd Hin), attrs_apply.
@@ -504,6 +536,23 @@ Proof.
   destruct (lookup_value (name f) (get_features m) vs) as [v|].
   - destruct Hl as [_ (g & Hg & Hv)]. exists g. split; [exact Hg|]. rewrite Hv. reflexivity.
   - congruence.
+Qed.
+
+(* with the emptiness check of the operation the [GNone] case of [in_domain] (both lists empty, the stored
+   value None) cannot occur any more: the stored value is a listed element or lies in a listed range *)
+Theorem gen_attrs_in_domain_strict : forall nm d ol draws m m' f,
+  ranges_ordered d -> randint_ok_pos d draws ->
+  NoDup (names (root m)) -> gen_random_attribute nm (Some d) ol draws m = Ok m' ->
+  In f (subfeatures (root m)) -> targeted ol nm f = true ->
+  exists g, in_domain g d /\ g <> GNone /\
+    attrs_of (name f) (root m')
+    = Some (f_attrs (info f) ++ [{| a_name := nm; a_dom := Some d; a_default := gval_aval g; a_null := VNone |}]).
+Proof.
+  intros nm d ol draws m m' f Hord Hri Hnd H Hin Ht.
+  destruct (gen_attrs_in_domain nm d ol draws m m' f Hord Hri Hnd H Hin Ht) as (g & Hg & Ha).
+  exists g. split; [exact Hg|]. split; [|exact Ha].
+  intros ->. cbn [in_domain] in Hg. destruct Hg as [He Hr].
+  destruct (gen_random_domain_nonempty _ _ _ _ _ _ H) as [Hne|Hne]; apply Hne; assumption.
 Qed.
 
 (* ------------------------------------------------------------------------------------------- *)
@@ -586,6 +635,12 @@ Proof.
   vm_compute in Hq, Hlo, Hhi. inversion Hq; subst. inversion Hlo; subst. vm_compute in H1. discriminate.
 Qed.
 
+(* (c) a domain without elements and without ranges is refused *)
+Example gen_random_empty_domain :
+  gen_random_attribute "x" (Some {| dom_ranges := []; dom_elems := [] |}) false []
+                       {| root := leaf "A"; ctcs := [] |} = Err FlamaException.
+Proof. vm_compute. reflexivity. Qed.
+
 Print Assumptions gen_no_domain.
 Print Assumptions dec_leb_refl.
 Print Assumptions dec_leb_total.
@@ -598,5 +653,8 @@ Print Assumptions decide_values.
 Print Assumptions decide_values_in_domain.
 Print Assumptions gen_attrs.
 Print Assumptions gen_attrs_in_domain.
+Print Assumptions gen_random_domain_nonempty.
+Print Assumptions gen_attrs_in_domain_strict.
+Print Assumptions gen_random_empty_domain.
 Print Assumptions ex_run.
 Print Assumptions ex_run_listing.
